@@ -121,7 +121,7 @@ func vStatsScenario(kind int) {
 		W.w.Stats() // the stats object now holds (soon stale) figures
 	}
 	if kind == 1 {
-		W.cacheScenario(vPick("scenario", 9))
+		W.cacheScenario(vPick("scenario", 10))
 	} else {
 		vMode = 1
 		W.applyOp([]int{0, 5, 6, 8}[vPick("op", 4)], "op")
@@ -129,7 +129,7 @@ func vStatsScenario(kind int) {
 	if vPick("stats-called-between", 2) == 1 {
 		W.w.Stats()
 		if kind == 1 {
-			W.cacheScenario(vPick("scenario2", 9))
+			W.cacheScenario(vPick("scenario2", 10))
 		}
 	}
 	inc := vCopyStats(W.w.Stats())
